@@ -66,4 +66,17 @@ modifications and the terminal static rules of the parent (copied by `slice`) -/
 def inherited (m : Mod → Rat) (t : Option (List Mod) → Rat) (a : Annotation) : Rat :=
   modSum m a.labile + modSum m a.unknown + t a.static
 
+
+/-! ### concrete annotations used by the non-vacuity examples -/
+
+/-- `{100}[Ac]-P[Ph]E(PT)[1]... ` : labile, both termini, two residue mods, two adjacent intervals -/
+def demo : Annotation :=
+  { seq := ['P', 'E', 'P', 'T', 'I', 'D', 'E'],
+    labile := some [⟨.int 100, 1⟩],
+    nterm := some [⟨.str ['A', 'c'], 1⟩], cterm := some [⟨.str ['A', 'm'], 1⟩],
+    internal := some [(0, [⟨.str ['P', 'h'], 1⟩]), (3, [⟨.int 16, 2⟩])],
+    intervals := some [⟨1, 3, false, some [⟨.int 1, 1⟩]⟩, ⟨3, 5, true, none⟩] }
+
+def demoNoIv : Annotation := { demo with intervals := none }
+
 end Pept.Reorder
